@@ -1,4 +1,5 @@
-(** C10 on ALL segment trees, part 6: the MERGE extractor. *)
+(** C10 on ALL segment trees, part 6: the MERGE extractor (after fix F11: no column lineage without an identified
+    target table). *)
 From SV Require Import Tree.Observe Tree.TriviaProofs Tree.LemmaAProofs Tree.HolderInv Tree.ExtractInv
      Tree.TotalDefs Tree.TotalLeaves Tree.TotalHolder Tree.TotalExtract Tree.TotalMain.
 Require Import Lia.
@@ -22,10 +23,13 @@ Definition merge_step (fuel : nat) (e : env) (segments : list seg) (a : mstate) 
                              match get_children sc ["column_reference"] with
                              | [c0; c1] =>
                                  do sq <- extract_column_qualifier c1;
-                                 do tq <- extract_column_qualifier c0;
-                                 do tcol <- (match tq with
-                                             | Some t => do w <- nth_res (st_write g2) 0; Ok (Some (plain_col (fst t) (Some w)))
-                                             | None => Ok None end);
+                                 (* after fix F11: without an identified target the target column is not looked at *)
+                                 do tcol <- (match st_write g2 with
+                                             | w :: _ =>
+                                                 do tq <- extract_column_qualifier c0;
+                                                 Ok (match tq with Some t => Some (plain_col (fst t) (Some w)) | None => None end)
+                                             | [] => Ok None
+                                             end);
                                  match sq, tcol with
                                  | Some sc0, Some tc => add_column_lineage g2 (plain_col (fst sc0) direct) tc
                                  | _, _ => Ok g2
@@ -43,10 +47,14 @@ Definition merge_step (fuel : nat) (e : env) (segments : list seg) (a : mstate) 
                        match get_child mi ["bracketed"] with
                        | Some b =>
                            do ins <- concat_res (map (fun cr =>
-                                       do q <- extract_column_qualifier cr;
-                                       match q with
-                                       | Some c => do w <- nth_res (st_write gg) 0; Ok [plain_col (fst c) (Some w)]
-                                       | None => Ok []
+                                       match st_write gg with
+                                       | w :: _ =>
+                                           do q <- extract_column_qualifier cr;
+                                           match q with
+                                           | Some c => Ok [plain_col (fst c) (Some w)]
+                                           | None => Ok []
+                                           end
+                                       | [] => Ok []
                                        end) (get_children b ["column_reference"]));
                            match get_child mi ["values_clause"] with
                            | Some vc =>
@@ -114,112 +122,17 @@ Lemma extract_merge_eq fuel e stmt :
    Ok (fst (fst (fst r)))).
 Proof. reflexivity. Qed.
 
-(** * "a table / path is recorded as written" and its preservation *)
-Definition Wt (g : graph) : Prop := exists d a, In (NData d, a) (gnodes g) /\ attr_true "write" a = true /\ dk d <> KSubq.
-Definition GW (g : graph) : Prop := GI g /\ Wt g.
-
-Lemma attr_get_set k k' v a : attr_get k (attr_set k' v a) = if String.eqb k k' then Some v else attr_get k a.
-Proof.
-  induction a as [|[k2 v2] r IH]; cbn [attr_set attr_get]; [reflexivity|].
-  destruct (String.eqb_spec k' k2) as [->|N]; cbn [attr_get].
-  - destruct (String.eqb k k2); reflexivity.
-  - rewrite IH. destruct (String.eqb_spec k k2) as [->|N2]; [|reflexivity].
-    destruct (String.eqb_spec k2 k') as [->|N3]; [destruct (N eq_refl)|reflexivity].
-Qed.
-
-Lemma attr_true_update k a : forall b, attr_true k b = true -> ~ In (k, false) a -> attr_true k (attr_update b a) = true.
-Proof.
-  induction a as [|[k1 v1] r IH]; intros b Hb Hn; cbn [attr_update]; [exact Hb|].
-  apply IH; [|intros H; apply Hn; right; exact H]. unfold attr_true. rewrite attr_get_set.
-  destruct (String.eqb_spec k k1) as [->|N]; [|exact Hb]. destruct v1; [reflexivity|]. destruct Hn. left; reflexivity.
-Qed.
-
-Definition wsafe (n : node) (a : nattrs) : Prop := forall d, n = NData d -> dk d <> KSubq -> ~ In ("write", false) a.
-
-Lemma Wt_upsert n a l : wsafe n a ->
-  (exists d b, In (NData d, b) l /\ attr_true "write" b = true /\ dk d <> KSubq) ->
-  exists d b, In (NData d, b) (upsert_node n a l) /\ attr_true "write" b = true /\ dk d <> KSubq.
-Proof.
-  intros Hs. induction l as [|[m b0] r IH]; intros (d & b & Hin & Hb & Hd); [destruct Hin|]. cbn [upsert_node].
-  destruct (node_eqb n m) eqn:E.
-  - destruct Hin as [Hin|Hin]; [|exists d, b; split; [right; exact Hin|split; assumption]].
-    inversion Hin; subst. exists d, (attr_update b a). split; [left; reflexivity|]. split; [|exact Hd].
-    apply attr_true_update; [exact Hb|]. destruct n as [d'| |]; cbn [node_eqb] in E; try discriminate.
-    apply (Hs d' eq_refl). rewrite (dataset_eqb_dk _ _ E). exact Hd.
-  - destruct Hin as [Hin|Hin]; [exists d, b; split; [left; exact Hin|split; assumption]|].
-    destruct (IH (ex_intro _ d (ex_intro _ b (conj Hin (conj Hb Hd))))) as (d2 & b2 & K1 & K2). exists d2, b2. split; [right; exact K1|exact K2].
-Qed.
-
-Lemma wsafe_nil n : wsafe n []. Proof. intros d _ _ []. Qed.
-Lemma wsafe_tag n k : wsafe n [(k, true)]. Proof. intros d _ _ [H|[]]. discriminate H. Qed.
-
-Lemma Wt_add_node g n a : wsafe n a -> Wt g -> Wt (add_node g n a).
-Proof. intros Hs H. exact (Wt_upsert n a _ Hs H). Qed.
-Lemma Wt_add_edge g u v ea : Wt g -> Wt (add_edge g u v ea).
-Proof. intros H. exact (Wt_add_node _ v [] (wsafe_nil v) (Wt_add_node g u [] (wsafe_nil u) H)). Qed.
-Lemma Wt_add_read g v : Wt g -> Wt (add_read g v).
-Proof. intros H. unfold add_read. destruct (has_alias_attr v); [apply Wt_add_edge|]; apply Wt_add_node; try apply wsafe_tag; exact H. Qed.
-Lemma Wt_add_write g v : Wt g -> Wt (add_write g v).
-Proof. intros H. apply Wt_add_node; [apply wsafe_tag|exact H]. Qed.
-
-Lemma Wt_add_write_new g d : dk d <> KSubq -> Wt (add_write g d).
-Proof.
-  intros Hd. unfold add_write, add_node, Wt. cbn [gnodes]. induction (gnodes g) as [|[m b0] r IH]; cbn [upsert_node].
-  - exists d, [("write", true)]. split; [left; reflexivity|split; [reflexivity|exact Hd]].
-  - destruct (node_eqb (NData d) m) eqn:E.
-    + destruct m as [d'| |]; cbn [node_eqb] in E; try discriminate. exists d', (attr_update b0 [("write", true)]). split; [left; reflexivity|]. split.
-      * cbn [attr_update]. unfold attr_true. rewrite attr_get_set. reflexivity.
-      * rewrite <- (dataset_eqb_dk _ _ E). exact Hd.
-    + destruct IH as (d2 & b2 & K1 & K2). exists d2, b2. split; [right; exact K1|exact K2].
-Qed.
-
-Lemma Wt_compose g h : Wt g -> GI h -> Wt (compose g h).
-Proof.
-  intros H [H1 _]. unfold compose, Wt in *. cbn [gnodes]. revert H. generalize (gnodes g) as l. revert H1. generalize (gnodes h) as hl.
-  induction hl as [|[n a] r IH]; intros Hh l Hl; cbn [fold_left]; [exact Hl|].
-  apply IH; [intros n' a' Hin; apply Hh; right; exact Hin|]. cbn [fst snd]. apply Wt_upsert; [|exact Hl].
-  intros d -> Hd. exact (proj2 (proj2 (Hh (NData d) a (or_introl eq_refl))) Hd).
-Qed.
-
-Lemma Wt_st_write g : GI g -> Wt g -> exists w, nth_res (st_write g) 0 = Ok w /\ ds_ok w.
-Proof.
-  intros G (d & a & Hin & Ha & Hd).
-  assert (K : In d (st_write g)).
-  { unfold st_write. apply filter_In. split; [|destruct (dk d); try reflexivity; destruct (Hd eq_refl)].
-    unfold sq_write, holder_nodes. apply in_flat_map. exists (NData d, a). split; [exact Hin|]. cbn [fst snd]. rewrite Ha. left; reflexivity. }
-  destruct (st_write g) as [|w r] eqn:E; [destruct K|]. exists w. split; [reflexivity|].
-  apply (holder_nodes_ok g "write" w G). assert (Hw : In w (st_write g)) by (rewrite E; left; reflexivity).
-  unfold st_write in Hw. apply filter_In in Hw. exact (proj1 Hw).
-Qed.
-
-Lemma add_column_lineage_gw g s t : GW g -> col_ok s -> col_ok t -> okv GW (add_column_lineage g s t).
-Proof.
-  intros [G W] Hs Ht. pose proof (add_column_lineage_okv g s t G Hs Ht) as K. unfold add_column_lineage in *.
-  destruct (col_parent t) as [tp|]; [|exact K]. cbn [okg] in *. split; [exact K|].
-  destruct (col_parent s); repeat apply Wt_add_edge; exact W.
-Qed.
-
 Lemma plain_col_ok name p : (forall d, p = Some d -> ds_ok d) -> col_ok (plain_col name p).
 Proof. intros H. unfold plain_col. destruct p as [d|]; [apply col_ok_one; exact (H d eq_refl)|apply col_ok_nil]. Qed.
 
-(** * one step of the MERGE state machine *)
-Definition MI (l : list seg) (a : mstate) : Prop :=
-  let '(g, tf, sf, direct) := a in
-  GI g /\ (forall d, direct = Some d -> ds_ok d) /\ exists w, merge_guard l tf sf w = true /\ (w = true -> Wt g).
+Lemma st_write_head_ok g w r : GI g -> st_write g = w :: r -> ds_ok w.
+Proof.
+  intros G E. apply (holder_nodes_ok g "write" w G). assert (Hw : In w (st_write g)) by (rewrite E; left; reflexivity).
+  unfold st_write in Hw. apply filter_In in Hw. exact (proj1 Hw).
+Qed.
 
-Lemma nth_after {A} (pre : list A) s r : nth_res (pre ++ s :: r) (S (List.length pre)) = nth_res r 0.
-Proof. unfold nth_res. induction pre as [|p pre IH]; cbn [app List.length nth_error]; [destruct r; reflexivity|exact IH]. Qed.
-
-Lemma tyis_other s t t' : tyis s t = true -> String.eqb t t' = false -> tyis s t' = false.
-Proof. intros H N. apply tyis_eq in H. unfold tyis. rewrite H. exact N. Qed.
-
-Section MergeStep.
-Variables (fuel : nat) (e : env) (stmt : seg).
-Hypothesis Hef : escape_free stmt = true.
-Hypothesis Hfuel : depth stmt <= fuel.
-
-Lemma merge_matched_ok s g direct : Ds stmt s -> GW g -> (forall d, direct = Some d -> ds_ok d) ->
-  okv GW (fold_left (fun accg wm =>
+Definition merge_matched (s : seg) (g : graph) (direct : option dataset) : res graph :=
+fold_left (fun accg wm =>
                      do gg <- accg;
                      match get_child wm ["merge_update_clause"] with
                      | Some muc =>
@@ -230,10 +143,13 @@ Lemma merge_matched_ok s g direct : Ds stmt s -> GW g -> (forall d, direct = Som
                              match get_children sc ["column_reference"] with
                              | [c0; c1] =>
                                  do sq <- extract_column_qualifier c1;
-                                 do tq <- extract_column_qualifier c0;
-                                 do tcol <- (match tq with
-                                             | Some t => do w <- nth_res (st_write g2) 0; Ok (Some (plain_col (fst t) (Some w)))
-                                             | None => Ok None end);
+                                 (* after fix F11: without an identified target the target column is not looked at *)
+                                 do tcol <- (match st_write g2 with
+                                             | w :: _ =>
+                                                 do tq <- extract_column_qualifier c0;
+                                                 Ok (match tq with Some t => Some (plain_col (fst t) (Some w)) | None => None end)
+                                             | [] => Ok None
+                                             end);
                                  match sq, tcol with
                                  | Some sc0, Some tc => add_column_lineage g2 (plain_col (fst sc0) direct) tc
                                  | _, _ => Ok g2
@@ -243,37 +159,24 @@ Lemma merge_matched_ok s g direct : Ds stmt s -> GW g -> (forall d, direct = Som
                        | None => Ok gg
                        end
                      | None => Ok gg
-                     end) (get_children s ["merge_when_matched_clause"]) (Ok g)).
-Proof.
-  intros Dsx HG Hdir. pose proof (Ds_ef _ _ Dsx) as Es.
-  eapply (okr_fold GW); [|exact HG]. intros gg wm Hwm Hgg. pose proof (Ds_get_children s _ wm Es Hwm) as Dwm.
-  destruct (get_child wm ["merge_update_clause"]) as [muc|] eqn:E1; [|exact Hgg]. pose proof (Ds_get_child wm _ muc (Ds_ef _ _ Dwm) E1) as D1.
-  destruct (get_child muc ["set_clause_list"]) as [scl|] eqn:E2; [|exact Hgg]. pose proof (Ds_get_child muc _ scl (Ds_ef _ _ D1) E2) as D2.
-  eapply (okr_fold GW); [|exact Hgg]. intros g2 sc Hsc [G2 W2]. pose proof (Ds_get_children scl _ sc (Ds_ef _ _ D2) Hsc) as Dsc.
-  destruct (get_children sc ["column_reference"]) as [|c0 [|c1 [|c2 rr]]] eqn:Ec; try (split; assumption).
-  assert (E0 : escape_free c0 = true) by (apply (Ds_ef sc); apply (Ds_get_children sc ["column_reference"] c0 (Ds_ef _ _ Dsc)); rewrite Ec; left; reflexivity).
-  assert (E1' : escape_free c1 = true) by (apply (Ds_ef sc); apply (Ds_get_children sc ["column_reference"] c1 (Ds_ef _ _ Dsc)); rewrite Ec; right; left; reflexivity).
-  apply (okr_bind _ _ _ _ (okr_okv _ _ (extract_column_qualifier_ok c1 E1'))). intros sq _.
-  apply (okr_bind _ _ _ _ (okr_okv _ _ (extract_column_qualifier_ok c0 E0))). intros tq _.
-  apply (okr_bind (fun o : option column => forall c, o = Some c -> col_ok c)).
-  - destruct tq as [t|]; [|intros c K; discriminate K]. destruct (Wt_st_write g2 G2 W2) as (w & -> & Hw). cbn [okg].
-    intros c K. inversion K. apply plain_col_ok. intros d Kd. inversion Kd; subst. exact Hw.
-  - intros tcol Htc. destruct sq as [sc0|]; [|split; assumption]. destruct tcol as [tc|]; [|split; assumption].
-    apply add_column_lineage_gw; [split; assumption|apply plain_col_ok; exact Hdir|exact (Htc tc eq_refl)].
-Qed.
+                     end) (get_children s ["merge_when_matched_clause"]) (Ok g).
 
-Lemma merge_not_matched_ok s g direct : Ds stmt s -> GW g -> (forall d, direct = Some d -> ds_ok d) ->
-  okv GW (fold_left (fun accg wn =>
+Definition merge_not_matched (s : seg) (g : graph) (direct : option dataset) : res graph :=
+fold_left (fun accg wn =>
                      do gg <- accg;
                      match get_child wn ["merge_insert_clause"] with
                      | Some mi =>
                        match get_child mi ["bracketed"] with
                        | Some b =>
                            do ins <- concat_res (map (fun cr =>
-                                       do q <- extract_column_qualifier cr;
-                                       match q with
-                                       | Some c => do w <- nth_res (st_write gg) 0; Ok [plain_col (fst c) (Some w)]
-                                       | None => Ok []
+                                       match st_write gg with
+                                       | w :: _ =>
+                                           do q <- extract_column_qualifier cr;
+                                           match q with
+                                           | Some c => Ok [plain_col (fst c) (Some w)]
+                                           | None => Ok []
+                                           end
+                                       | [] => Ok []
                                        end) (get_children b ["column_reference"]));
                            match get_child mi ["values_clause"] with
                            | Some vc =>
@@ -287,6 +190,7 @@ Lemma merge_not_matched_ok s g direct : Ds stmt s -> GW g -> (forall d, direct =
                                              do q <- extract_column_qualifier cro;
                                              match q with
                                              | Some c =>
+                                                 (* after fix F6: a value beyond the insert column list is skipped *)
                                                  match nth_error ins j with
                                                  | Some tc => add_column_lineage g3 (plain_col (fst c) direct) tc
                                                  | None => Ok g3
@@ -302,26 +206,61 @@ Lemma merge_not_matched_ok s g direct : Ds stmt s -> GW g -> (forall d, direct =
                        | None => Ok gg
                        end
                      | None => Ok gg
-                     end) (get_children s ["merge_when_not_matched_clause"]) (Ok g)).
+                     end) (get_children s ["merge_when_not_matched_clause"]) (Ok g).
+
+Lemma nth_after {A} (pre : list A) s r : nth_res (pre ++ s :: r) (S (List.length pre)) = nth_res r 0.
+Proof. unfold nth_res. induction pre as [|p pre IH]; cbn [app List.length nth_error]; [destruct r; reflexivity|exact IH]. Qed.
+
+Lemma tyis_other s t t' : tyis s t = true -> String.eqb t t' = false -> tyis s t' = false.
+Proof. intros H N. apply tyis_eq in H. unfold tyis. rewrite H. exact N. Qed.
+
+Lemma merge_matched_ok stmt s g direct : Ds stmt s -> GI g -> (forall d, direct = Some d -> ds_ok d) ->
+  okv GI (merge_matched s g direct).
 Proof.
-  intros Dsx HG Hdir. pose proof (Ds_ef _ _ Dsx) as Es.
-  eapply (okr_fold GW); [|exact HG]. intros gg wn Hwn [Gg Wg]. pose proof (Ds_get_children s _ wn Es Hwn) as Dwn.
-  destruct (get_child wn ["merge_insert_clause"]) as [mi|] eqn:E1; [|split; assumption]. pose proof (Ds_get_child wn _ mi (Ds_ef _ _ Dwn) E1) as D1.
-  destruct (get_child mi ["bracketed"]) as [b|] eqn:E2; [|split; assumption]. pose proof (Ds_get_child mi _ b (Ds_ef _ _ D1) E2) as D2.
+  intros Dsx HG Hdir. pose proof (Ds_ef _ _ Dsx) as Es. unfold merge_matched.
+  eapply (okr_fold GI); [|exact HG]. intros gg wm Hwm Hgg. pose proof (Ds_get_children s _ wm Es Hwm) as Dwm.
+  destruct (get_child wm ["merge_update_clause"]) as [muc|] eqn:E1; [|exact Hgg]. pose proof (Ds_get_child wm _ muc (Ds_ef _ _ Dwm) E1) as D1.
+  destruct (get_child muc ["set_clause_list"]) as [scl|] eqn:E2; [|exact Hgg]. pose proof (Ds_get_child muc _ scl (Ds_ef _ _ D1) E2) as D2.
+  eapply (okr_fold GI); [|exact Hgg]. intros g2 sc Hsc G2. pose proof (Ds_get_children scl _ sc (Ds_ef _ _ D2) Hsc) as Dsc.
+  destruct (get_children sc ["column_reference"]) as [|c0 [|c1 [|c2 rr]]] eqn:Ec; try exact G2.
+  assert (E0 : escape_free c0 = true) by (apply (Ds_ef sc); apply (Ds_get_children sc ["column_reference"] c0 (Ds_ef _ _ Dsc)); rewrite Ec; left; reflexivity).
+  assert (E1' : escape_free c1 = true) by (apply (Ds_ef sc); apply (Ds_get_children sc ["column_reference"] c1 (Ds_ef _ _ Dsc)); rewrite Ec; right; left; reflexivity).
+  apply (okr_bind _ _ _ _ (okr_okv _ _ (extract_column_qualifier_ok c1 E1'))). intros sq _.
+  apply (okr_bind (fun o : option column => forall c, o = Some c -> col_ok c)).
+  - destruct (st_write g2) as [|w wr] eqn:Ew; [intros c K; discriminate K|].
+    apply (okr_bind _ _ _ _ (okr_okv _ _ (extract_column_qualifier_ok c0 E0))). intros tq _. cbn [okg].
+    destruct tq as [t|]; [|intros c K; discriminate K]. intros c K. inversion K. apply plain_col_ok.
+    intros d Kd. inversion Kd; subst. exact (st_write_head_ok g2 d wr G2 Ew).
+  - intros tcol Htc. destruct sq as [sc0|]; [|exact G2]. destruct tcol as [tc|]; [|exact G2].
+    apply add_column_lineage_okv; [exact G2|apply plain_col_ok; exact Hdir|exact (Htc tc eq_refl)].
+Qed.
+
+Lemma merge_not_matched_ok stmt s g direct : Ds stmt s -> GI g -> (forall d, direct = Some d -> ds_ok d) ->
+  okv GI (merge_not_matched s g direct).
+Proof.
+  intros Dsx HG Hdir. pose proof (Ds_ef _ _ Dsx) as Es. unfold merge_not_matched.
+  eapply (okr_fold GI); [|exact HG]. intros gg wn Hwn Gg. pose proof (Ds_get_children s _ wn Es Hwn) as Dwn.
+  destruct (get_child wn ["merge_insert_clause"]) as [mi|] eqn:E1; [|exact Gg]. pose proof (Ds_get_child wn _ mi (Ds_ef _ _ Dwn) E1) as D1.
+  destruct (get_child mi ["bracketed"]) as [b|] eqn:E2; [|exact Gg]. pose proof (Ds_get_child mi _ b (Ds_ef _ _ D1) E2) as D2.
   apply (okr_bind (Forall col_ok)).
   - apply okr_concat_map. intros cr Hcr. pose proof (Ds_get_children b _ cr (Ds_ef _ _ D2) Hcr) as Dcr.
+    destruct (st_write gg) as [|w wr] eqn:Ew; [constructor|].
     apply (okr_bind _ _ _ _ (okr_okv _ _ (extract_column_qualifier_ok cr (Ds_ef _ _ Dcr)))). intros q _.
-    destruct q as [c|]; [|constructor]. destruct (Wt_st_write gg Gg Wg) as (w & -> & Hw). cbn [okg]. constructor; [|constructor].
-    apply plain_col_ok. intros d Kd. inversion Kd; subst. exact Hw.
-  - intros ins Hins. destruct (get_child mi ["values_clause"]) as [vc|] eqn:E3; [|split; assumption]. pose proof (Ds_get_child mi _ vc (Ds_ef _ _ D1) E3) as D3.
-    destruct (get_child vc ["bracketed"]) as [vb|] eqn:E4; [|split; assumption]. pose proof (Ds_get_child vc _ vb (Ds_ef _ _ D3) E4) as D4.
-    eapply (okr_fold_idx GW); [|split; assumption]. intros g3 j ex Hex HG3. pose proof (Ds_get_children vb _ ex (Ds_ef _ _ D4) Hex) as Dex.
-    destruct (get_child ex ["column_reference"]) as [cro|] eqn:E5; [|exact HG3]. pose proof (Ds_get_child ex _ cro (Ds_ef _ _ Dex) E5) as D5.
+    destruct q as [c|]; [|constructor]. cbn [okg]. constructor; [|constructor].
+    apply plain_col_ok. intros d Kd. inversion Kd; subst. exact (st_write_head_ok gg d wr Gg Ew).
+  - intros ins Hins. destruct (get_child mi ["values_clause"]) as [vc|] eqn:E3; [|exact Gg]. pose proof (Ds_get_child mi _ vc (Ds_ef _ _ D1) E3) as D3.
+    destruct (get_child vc ["bracketed"]) as [vb|] eqn:E4; [|exact Gg]. pose proof (Ds_get_child vc _ vb (Ds_ef _ _ D3) E4) as D4.
+    eapply (okr_fold_idx GI); [|exact Gg]. intros g3 j ex Hex G3. pose proof (Ds_get_children vb _ ex (Ds_ef _ _ D4) Hex) as Dex.
+    destruct (get_child ex ["column_reference"]) as [cro|] eqn:E5; [|exact G3]. pose proof (Ds_get_child ex _ cro (Ds_ef _ _ Dex) E5) as D5.
     apply (okr_bind _ _ _ _ (okr_okv _ _ (extract_column_qualifier_ok cro (Ds_ef _ _ D5)))). intros q _.
-    destruct q as [c|]; [|exact HG3]. destruct (nth_error ins j) as [tc|] eqn:En; [|exact HG3].
-    rewrite Forall_forall in Hins. apply add_column_lineage_gw; [exact HG3|apply plain_col_ok; exact Hdir|exact (Hins tc (nth_error_In _ _ En))].
+    destruct q as [c|]; [|exact G3]. destruct (nth_error ins j) as [tc|] eqn:En; [|exact G3].
+    rewrite Forall_forall in Hins. apply add_column_lineage_okv; [exact G3|apply plain_col_ok; exact Hdir|exact (Hins tc (nth_error_In _ _ En))].
 Qed.
-End MergeStep.
+
+(** * one step of the MERGE state machine *)
+Definition MI (l : list seg) (a : mstate) : Prop :=
+  let '(g, tf, sf, direct) := a in
+  GI g /\ (forall d, direct = Some d -> ds_ok d) /\ merge_guard l sf = true.
 
 Lemma find_table_ref e s : ty_in s ["table_reference"; "object_reference"] = true ->
   find_table e s = (do t <- table_of_seg e s None; Ok (Some t)).
@@ -333,51 +272,44 @@ Lemma merge_step_ok fuel e stmt pre s r a :
   escape_free stmt = true -> depth stmt <= fuel -> list_child_segments stmt true = pre ++ s :: r ->
   MI (s :: r) a -> okv (MI r) (merge_step fuel e (list_child_segments stmt true) a (List.length pre) s).
 Proof.
-  intros Hef Hfuel Eseg Ha. destruct a as [[[g tf] sf] direct]. destruct Ha as (G & Hdir & w & Hg & Hw).
+  intros Hef Hfuel Eseg Ha. destruct a as [[[g tf] sf] direct]. destruct Ha as (G & Hdir & Hg).
   assert (Dsx : Ds stmt s) by (apply (Ds_lcs stmt true s Hef); rewrite Eseg; apply in_or_app; right; left; reflexivity).
   pose proof (Ds_ef _ _ Dsx) as Es.
   assert (Dr : forall x, In x r -> Ds stmt x) by (intros x Hx; apply (Ds_lcs stmt true x Hef); rewrite Eseg; apply in_or_app; right; right; exact Hx).
-  unfold merge_step. cbn [merge_guard] in Hg.
+  unfold merge_step. fold (merge_matched s g direct). cbn [merge_guard] in Hg.
   destruct (tyis s "merge_match") eqn:Emm.
-  { apply andb_true_iff in Hg. destruct Hg as [Hw1 Hg]. subst w. pose proof (Hw eq_refl) as W.
-    apply (okr_bind (fun st : graph * bool * bool * option dataset * bool => exists g2, st = (g2, tf, sf, direct, false) /\ GW g2)).
-    - apply (okr_bind GW); [exact (merge_matched_ok stmt s g direct Dsx (conj G W) Hdir)|]. intros g1 HG1.
-      apply (okr_bind GW); [exact (merge_not_matched_ok stmt s g1 direct Dsx HG1 Hdir)|]. intros g2 HG2. exists g2. split; [reflexivity|exact HG2].
-    - intros st (g2 & -> & G2 & W2). cbv beta iota.
+  { apply (okr_bind (fun st : graph * bool * bool * option dataset * bool => exists g2, st = (g2, tf, sf, direct, false) /\ GI g2)).
+    - apply (okr_bind GI); [exact (merge_matched_ok stmt s g direct Dsx G Hdir)|]. intros g1 G1.
+      apply (okr_bind GI); [exact (merge_not_matched_ok stmt s g1 direct Dsx G1 Hdir)|]. intros g2 G2. exists g2. split; [reflexivity|exact G2].
+    - intros st (g2 & -> & G2). cbv beta iota.
       assert (Eref : ty_in s ["table_reference"; "object_reference"] = false) by (apply tyis_eq in Emm; unfold ty_in; rewrite Emm; reflexivity).
       rewrite (find_table_noref e s Eref). rewrite (tyis_other s _ "bracketed" Emm eq_refl).
-      destruct tf, sf; cbn; (split; [exact G2|split; [exact Hdir|exists true; split; [exact Hg|intros _; exact W2]]]). }
+      destruct tf, sf; cbn; (split; [exact G2|split; [exact Hdir|exact Hg]]). }
   destruct (tyis s "keyword") eqn:Ekw.
-  { cbv zeta in Hg |- *. destruct (mem_string (raw_upper s) ["MERGE"; "INTO"]).
-    - cbn. split; [exact G|split; [exact Hdir|exists w; split; assumption]].
-    - destruct (String.eqb (raw_upper s) "USING"); cbn; (split; [exact G|split; [exact Hdir|exists w; split; assumption]]). }
-  cbv zeta in Hg. cbv beta iota. apply andb_true_iff in Hg. destruct Hg as [Hnx Hg].
+  { cbv zeta. destruct (mem_string (raw_upper s) ["MERGE"; "INTO"]) eqn:Emi.
+    - assert (Eu : String.eqb (raw_upper s) "USING" = false).
+      { cbn [mem_string] in Emi. destruct (String.eqb_spec (raw_upper s) "USING") as [Eq|]; [|reflexivity]. rewrite Eq in Emi. discriminate Emi. }
+      rewrite Eu in Hg. cbn. split; [exact G|split; [exact Hdir|exact Hg]].
+    - destruct (String.eqb (raw_upper s) "USING"); cbn; (split; [exact G|split; [exact Hdir|exact Hg]]). }
+  cbv beta iota. apply andb_true_iff in Hg. destruct Hg as [Hnx Hg].
   destruct (ty_in s ["table_reference"; "object_reference"]) eqn:Eref.
-  - (* a table reference *)
-    rewrite (find_table_ref e s Eref). cbn [negb andb] in Hnx.
+  - rewrite (find_table_ref e s Eref).
     pose proof (okr_okv _ _ (table_of_seg_ok e s None Es (ty_in_2_3 s Eref))) as Kt.
-    assert (K2 : okv (fun g2 => GI g2 /\ ((w || tf) = true -> Wt g2))
-               (if tf then do t <- (do t <- table_of_seg e s None; Ok (Some t)); Ok (match t with Some d => add_write g d | None => g end) else Ok g)).
-    { destruct tf.
-      - apply (okr_bind (fun o : option dataset => exists d, o = Some d /\ dk d = KTable)).
-        + apply (okr_bind _ _ _ _ Kt). intros t Ht. exists t. split; [reflexivity|exact Ht].
-        + intros o (d & -> & Hk). cbn [okg].
-          split; [apply GI_add_write; [exact G|exact (ktable_ok d Hk)]|]. intros _. apply Wt_add_write_new. rewrite Hk. discriminate.
-      - cbn [okg]. split; [exact G|]. rewrite orb_false_r. exact Hw. }
-    apply (okr_bind _ _ _ _ K2). intros g2 [G2 W2]. rewrite andb_true_r in Hg.
+    assert (K2 : okv GI (if tf then do t <- (do t <- table_of_seg e s None; Ok (Some t)); Ok (match t with Some d => add_write g d | None => g end) else Ok g)).
+    { destruct tf; [|exact G]. apply (okr_bind (fun o : option dataset => exists d, o = Some d /\ dk d = KTable)).
+      - apply (okr_bind _ _ _ _ Kt). intros t Ht. exists t. split; [reflexivity|exact Ht].
+      - intros o (d & -> & Hk). cbn [okg]. apply GI_add_write; [exact G|exact (ktable_ok d Hk)]. }
+    apply (okr_bind _ _ _ _ K2). intros g2 G2.
     destruct sf.
     + apply (okr_bind (fun o : option dataset => exists d, o = Some d /\ dk d = KTable)).
       * apply (okr_bind _ _ _ _ Kt). intros t Ht. exists t. split; [reflexivity|exact Ht].
-      * intros o (d & -> & Hk). cbn. split; [apply GI_add_read; [exact G2|exact (ktable_ok d Hk)]|]. split; [intros d0 K; inversion K; subst; exact (ktable_ok d0 Hk)|].
-        exists (w || tf). split; [exact Hg|]. intros Hwt. apply Wt_add_read. exact (W2 Hwt).
-    + cbn. split; [exact G2|]. split; [exact Hdir|]. exists (w || tf). split; [exact Hg|exact W2].
-  - (* anything else *)
-    rewrite (find_table_noref e s Eref). rewrite andb_false_r, orb_false_r in Hg. cbn [negb] in Hnx. rewrite andb_true_r in Hnx.
-    assert (K2 : okv GI (if tf then do t <- Ok (@None dataset); Ok (match t with Some d => add_write g d | None => g end) else Ok g)) by (destruct tf; exact G).
+      * intros o (d & -> & Hk). cbn. split; [apply GI_add_read; [exact G2|exact (ktable_ok d Hk)]|]. split; [intros d0 K; inversion K; subst; exact (ktable_ok d0 Hk)|exact Hg].
+    + cbn. split; [exact G2|]. split; [exact Hdir|exact Hg].
+  - rewrite (find_table_noref e s Eref). cbn [negb] in Hnx. rewrite andb_true_r in Hnx.
     assert (E2 : (if tf then do t <- Ok (@None dataset); Ok (match t with Some d => add_write g d | None => g end) else Ok g) = Ok g) by (destruct tf; reflexivity).
     rewrite E2. cbv beta iota.
-    destruct sf; [|cbn; split; [exact G|split; [exact Hdir|exists w; split; assumption]]].
-    cbv beta iota. destruct (tyis s "bracketed") eqn:Ebr; [|cbn; split; [exact G|split; [exact Hdir|exists w; split; assumption]]].
+    destruct sf; [|cbn; split; [exact G|split; [exact Hdir|exact Hg]]].
+    cbv beta iota. destruct (tyis s "bracketed") eqn:Ebr; [|cbn; split; [exact G|split; [exact Hdir|exact Hg]]].
     cbn [andb] in Hnx. rewrite Eseg, nth_after. destruct r as [|nx r']; [discriminate Hnx|]. change (nth_res (nx :: r') 0) with (Ok nx). cbv beta iota.
     pose proof (Dr nx (or_introl eq_refl)) as Dnx.
     apply (okr_bind TT).
@@ -390,8 +322,7 @@ Proof.
     apply (okr_bind GI).
     { destruct Dq as [Eq Dq]. apply extract_total; [exact Eq|lia|].
       split; [|split]; cbn; intros l Hl; inversion Hl; subst; [exact (sq_cte_ok2 _ G3)|constructor; [apply mk_subquery_ds_ok|constructor]]. }
-    intros sub Gsub. cbn [okg MI]. split; [apply GI_compose; assumption|]. split; [intros d K; inversion K; subst; apply mk_subquery_ds_ok|].
-    exists w. split; [exact Hg|]. intros Hwt. apply Wt_compose; [apply Wt_add_read; exact (Hw Hwt)|exact Gsub].
+    intros sub Gsub. cbn [okg MI]. split; [apply GI_compose; assumption|]. split; [intros d K; inversion K; subst; apply mk_subquery_ds_ok|exact Hg].
 Qed.
 
 Lemma merge_fold_ok fuel e stmt : escape_free stmt = true -> depth stmt <= fuel ->
@@ -410,6 +341,6 @@ Theorem extract_merge_total fuel e stmt : escape_free stmt = true -> tyis stmt "
 Proof.
   intros H T Hd. rewrite extract_merge_eq. cbv zeta. apply (okr_bind (MI [])); [|intros r _; exact I].
   apply (merge_fold_ok fuel e stmt H Hd (list_child_segments stmt true) [] _ eq_refl). cbn [okg MI].
-  split; [exact GI_empty|]. split; [intros d K; discriminate K|]. exists false. split; [exact (L7 stmt H T)|intros K; discriminate K].
+  split; [exact GI_empty|]. split; [intros d K; discriminate K|exact (L7 stmt H T)].
 Qed.
 Print Assumptions extract_merge_total.
